@@ -96,3 +96,9 @@ package cluster
 //@   loop 1 invariant[counted] nodes >= 0 && (s.localID in seen ==> nodes >= 1)
 //@   loop 2 invariant[inv] stInv(s)
 //@   loop 2 invariant[counted] nodes >= 0 && (s.localID in seen ==> nodes >= 0)
+
+// Ownership (C05, C20): the local endpoint counts are changed only on behalf
+// of the upstream manager, which holds its mutex around the call.
+//@ callers-only[local-counts-add] (*State).AddLocalEndpoint : (*LoadBalancedManager).AddConn serves C05 C20
+//@ callers-only[local-counts-remove] (*State).RemoveLocalEndpoint : (*LoadBalancedManager).RemoveConn serves C05 C20
+//@ callers-only[subscribe] (*State).OnLocalEndpointUpdate : (*syncer).Sync serves C05 C20
